@@ -129,7 +129,7 @@ def symlink_destinations(ds, scratch):
                 p = os.path.join(dp, f)
                 rel = os.path.relpath(p, root)
                 if os.path.islink(p):
-                    out[rel] = ("link", os.readlink(p), open(p, "rb").read() if os.path.exists(p) else None)
+                    out[rel] = ("link", os.readlink(p), open(p, "rb").read() if os.path.isfile(p) else None)
                 else:
                     out[rel] = ("file", open(p, "rb").read())
         return out
@@ -187,6 +187,47 @@ def symlink_destinations(ds, scratch):
                     fails.append(dict(case, what="serialize changed a file other than the named one", files=ch))
                 if os.listdir(tmpd):
                     fails.append(dict(case, what="a temp file was left behind after a successful write"))
+        # a directory component that is a symbolic link, followed by "..": the operating system resolves the name through
+        # the link's target (its parent), not lexically
+        for fmt, doc in (("json", ds[0]), ("provn", ds[-1]), ("xml", ds[0])):
+            for pre in (False, True):
+                shutil.rmtree(root, ignore_errors=True)
+                shutil.rmtree(tmpd, ignore_errors=True)
+                os.makedirs(os.path.join(root, "dir"))
+                os.makedirs(os.path.join(root, "far", "away"))
+                os.makedirs(tmpd)
+                tempfile.tempdir = tmpd
+                os.symlink(os.path.join(root, "far", "away"), os.path.join(root, "dir", "link"))
+                name = "dir/link/../out." + fmt                 # = far/out.<fmt>
+                open(os.path.join(root, "dir", "out." + fmt), "wb").write(b"A BYSTANDER OF THE SAME NAME")
+                if pre:
+                    open(os.path.join(root, "far", "out." + fmt), "wb").write(b"OLD CONTENT")
+                expected = doc.serialize(format=fmt).encode("utf-8")
+                before = snap()
+                n += 1
+                os.chdir(root)
+                try:
+                    with mock.patch("builtins.print"):
+                        doc.serialize(name, format=fmt)
+                    raised = None
+                except Exception as e:
+                    raised = repr(e)[:200]
+                try:
+                    got = open(name, "rb").read()
+                except Exception as e:
+                    got = repr(e).encode()
+                finally:
+                    os.chdir(cwd)
+                after = snap()
+                case = {"name": name, "destination_is": "below a symbolic link to a directory, then '..'", "format": fmt, "preexisting": pre}
+                if raised:
+                    fails.append(dict(case, what="serialize to a name through a linked directory raised", exc=raised))
+                    continue
+                if got != expected:
+                    fails.append(dict(case, what="reading the named file does not give the serialisation", got=str(got[:60])))
+                ch = [f for f in sorted(set(before) | set(after)) if before.get(f) != after.get(f) and f != "far/out." + fmt]
+                if ch:
+                    fails.append(dict(case, what="serialize changed a file other than the named one", files=ch))
     finally:
         os.chdir(cwd)
         tempfile.tempdir = old_tmp
@@ -512,7 +553,7 @@ def run(tier, seed, log, model_runs=True, enlarged=False):
     coverage = {
         "evaluations": len(recs),
         "distinct_nontrivial": len({(r.get("name"), r.get("fmt"), r.get("preexisting"), str(r.get("fault"))) for r in recs if not r.get("refused")}),
-        "rule": "working-directory sequences (one relative name written from directory A, B, A, C, B: 3 names x 5 calls); destinations that are symbolic links (relative target beside the link or in another directory, absolute target, dangling; called from another directory; 4 x 3 formats); file-write cases = format x file name (relative, nested, absolute, spaces, non-ASCII, '#', '?', ';', ':', file: URL) "
+        "rule": "working-directory sequences (one relative name written from directory A, B, A, C, B: 3 names x 5 calls); destinations that are symbolic links (relative target beside the link or in another directory, absolute target, dangling; called from another directory; 4 x 3 formats) or lie below a linked directory followed by '..' (3 formats x pre-existing or not); file-write cases = format x file name (relative, nested, absolute, spaces, non-ASCII, '#', '?', ';', ':', file: URL) "
                 "x pre-existing destination or not x temp directory on the same / on another file system x fault (none, the k-th write call of the stream, the flush at close, the final move, a file-size limit at half the document so that the operating system cuts the write short); each runs "
                 "in a scratch directory with its own temp directory; distinct = distinct (name, format, preexisting, fault)",
         "samples": recs[:2] + recs[-2:],
